@@ -75,7 +75,9 @@ def machine_script(rng, n):
     s.append("bus poke imv %x" % (0 if rng.chance(1, 3) else 1))
     for q in range(16):
         if rng.chance(1, 2):
-            s.append("bus mw %x %x" % (0x212 + 4 * q, 0x8000 if rng.chance(1, 3) else 0))
+            # VIC (bit 15) and the 2-bit VADDR_H field; sometimes with the undocumented bits set (they must be ignored)
+            hi = (0x8000 if rng.chance(1, 3) else 0) | (rng.choice([0x4, 0x7FFC, 0x0FF0]) if rng.chance(1, 5) else 0)
+            s.append("bus mw %x %x" % (0x212 + 4 * q, hi))
             s.append("bus mw %x 200" % (0x214 + 4 * q))
     en = {}
     for off in (0x206, 0x208, 0x20A, 0x20C):
